@@ -89,9 +89,41 @@ def check(ctx):
     esa = mod.func("empty_safe_aggregate")
     ok = bool(find("parts2 = (p for p in parts if p is not no_result)", esa)) and any(Pat("empty_safe_apply(func, parts2, is_last)").match(r.value) is not None for r in returns(esa))
     ctx.ob("PAIR.tree.empty-safe", esa, "empty partitions are skipped, everything else is aggregated", ok)
+    # ---------------- foldby: binop folds elements into per-key totals; totals are merged with combine
+    fb = model.klass(BAG, "Bag").own_methods["foldby"]
+    tuples = [t for t in ast.walk(fb) if isinstance(t, ast.Tuple) and t.elts and isinstance(t.elts[0], ast.Name)]
+    mw = [t for t in tuples if t.elts[0].id == "merge_with"]
+    rb_key = [t for t in tuples if t.elts[0].id == "reduceby" and len(t.elts) > 2 and unparse(t.elts[1]) == "key"]
+    rb_lvl = [t for t in tuples if t.elts[0].id == "reduceby" and len(t.elts) > 2 and unparse(t.elts[1]) == "0"]
+    ctx.count("foldby_merge_sites", len(mw) + len(rb_lvl))
+    ctx.floor("foldby_merge_sites", 4, "merge_with / reduceby(0, ...) task templates in Bag.foldby")
+    for t in mw:
+        ok = unparse(t.elts[1]) == "(partial, reduce, combine)"
+        ctx.ob("ALG.foldby.levels", t, "partial totals of a key are merged with `combine`", ok, "" if ok else f"merged with {unparse(t.elts[1])}: binop folds an ELEMENT into a total; applied to two totals it gives wrong per-key results whenever combine differs from binop")
+    for t in rb_lvl:
+        ok = unparse(t.elts[2]) == "combine2"
+        ctx.ob("ALG.foldby.levels", t, "with combine_initial: totals are merged with combine2 = foldby_combine2(combine)", ok)
+    for t in rb_key:
+        ok = unparse(t.elts[2]) == "binop"
+        ctx.ob("ALG.foldby.leaves", t, "per partition: reduceby(key, binop, partition[, initial])", ok)
+    ok = bool(find("combine2 = partial(chunk.foldby_combine2, combine)", fb)) and any(unparse(n_.test) == "combine is None" and unparse(n_.body[0]) == "combine = binop" for n_ in walk_no_nested(fb) if isinstance(n_, ast.If))
+    ctx.ob("ALG.foldby.default-combine", fb, "combine defaults to binop only when it is None; combine2 wraps combine", ok)
+    # ---------------- groupby on disk: the per-block buffer is flushed every block, so it must be fresh every block
+    pt = mod.func("partition")
+    loops_ = [l for l in walk_no_nested(pt) if isinstance(l, ast.For)]
+    flush = [c for c in calls(pt, "append") if unparse(c.func.value) == "p"]
+    ok = len(flush) == 1 and isinstance(flush[0].args[0], ast.Name)
+    if ok:
+        buf = flush[0].args[0].id
+        host = [l for l in loops_ if in_subtree(flush[0], l) and enclosing_stmt(flush[0]) in l.body]
+        inits = [a for a in walk_no_nested(pt) if isinstance(a, ast.Assign) and unparse(a.targets[0]) == buf]
+        ok = bool(host) and len(inits) == 1 and inits[0] in host[0].body and inits[0].lineno < flush[0].lineno
+    ctx.ob("PAIR.flush-fresh", pt, "partition(): the buffer appended to the on-disk store each block is created inside that block's iteration", ok, "" if ok else "the buffer outlives the iteration: every later block re-appends the earlier blocks, groups get duplicated elements")
 
 
 VARIANTS = [
+    (BAG, "                        (partial, reduce, combine),\n                        [(b, j) for j in inds],", "                        (partial, reduce, binop),\n                        [(b, j) for j in inds],", "ALG.foldby.levels"),
+    (BAG, "    for block in partition_all(nelements, sequence):\n        d = groupby(grouper, block)\n        d2 = defaultdict(list)\n", "    d2 = defaultdict(list)\n    for block in partition_all(nelements, sequence):\n        d = groupby(grouper, block)\n", "PAIR.flush-fresh"),
     (BAG, "        return self.reduction(count, sum, split_every=split_every)", "        return self.reduction(count, max, split_every=split_every)", "ALG.reductions"),
     (BAG, "        return self.reduction(min, min, split_every=split_every)", "        return self.reduction(min, max, split_every=split_every)", "ALG.reductions"),
     (BAG, "        return self.reduction(any, any, split_every=split_every)", "        return self.reduction(any, all, split_every=split_every)", "ALG.reductions"),
